@@ -494,6 +494,12 @@ class Interp:
             if any(mod == p or mod.startswith(p + '.') for p in self.packages):
                 return self.instantiate(f, args, kwargs, node)
         from vc.pyvc import builtins_sym
+        # concrete (frozen)set of single characters .isdisjoint(symbolic string): no character of the set occurs in it
+        if isinstance(f, types.BuiltinFunctionType) and isinstance(getattr(f, '__self__', None), (set, frozenset)) \
+                and f.__name__ == 'isdisjoint' and len(args) == 1 and isinstance(args[0], SV) \
+                and args[0].kind in ('str', 'zstr') and all(isinstance(c, str) and len(c) == 1 for c in f.__self__):
+            hits = [z_bool(builtins_sym.contains(self, args[0], c, node)) for c in sorted(f.__self__)]
+            return SV('bool', z3.Not(z3.Or(*hits)) if hits else z3.BoolVal(True))
         # methods of concrete str / bytes with symbolic arguments
         if isinstance(f, types.BuiltinFunctionType) and isinstance(getattr(f, '__self__', None), (str, bytes)) \
                 and (any(contains_sym(a) for a in args)):
